@@ -16,6 +16,8 @@ from spacepackets.cfdp.tlv import (
     OriginatingTransactionId,
 )
 
+from harness import core
+
 ID = "C18"
 _T = "spacepackets.cfdp.tlv.defs:"
 _M = "SP.Model.MsgToUser."
@@ -66,10 +68,7 @@ MSG_TYPE = {1100: 0, 1101: 9, 1102: 11, 1103: 4, 1104: 10, 1105: 0x10, 1106: 0x1
 
 
 def _enum(cls, v):
-    try:
-        return cls(v)
-    except ValueError:
-        return v
+    return core.enum_or_int(cls, v)
 
 
 def _rb(f):
